@@ -3,20 +3,37 @@ import numpy as np
 
 from .. import world
 from ..core import Violation, run_tool
+from ..choice import ChoiceSource, perm_from_index
+from ..pool import _feasible_order
 from . import common
 
 ID = "C15"
 LEVEL = "exploration"
-BUDGET = {"quick": 32000, "thorough": 640000}
+BUDGET = {"quick": 8000, "thorough": 160000}
 WALL_CAP = {"quick": 600, "thorough": 5400}
 RULE = ("case = generated 2D/3D plotfile (levels, mixed box extents, boxes scattered over files in any "
         "on-disk order, special payloads) x field-selector form x level, iterated under a drawn SimPool "
         "schedule (W, completion order, lazy/eager delivery; all completion orders are reachable through the "
-        "single-draw permutation for <=6 per-file tasks) plus .iter(sel) for int/slice/list/mask selections; "
+        "single-draw permutation for <=6 per-file tasks; for levels with 2-4 binary files ALL feasible completion "
+        "orders x W in {1,2,16} x {lazy, eager} are enumerated as well) plus .iter(sel) for int/slice/list/mask selections; "
         "non-trivial = the level has >=2 binary files (>=2 pool tasks) or a non-monotone file layout; "
         "distinct = hash of (world summary, selector, level, schedule)")
 ASSUMPTIONS = ["independent reader/model (sim/world.py, sim/reader.py) is the oracle",
                "payloads unique per cell, so equal digests mean the same stored box"]
+
+
+class SuffixScript(ChoiceSource):
+    """Schedule source for enumerations: values by label SUFFIX (pool ids vary), lo otherwise."""
+
+    def __init__(self, script):
+        super().__init__()
+        self.script = dict(script)
+
+    def _next(self, label, lo, hi):
+        for suf, v in self.script.items():
+            if label.endswith(suf):
+                return min(max(v, lo), hi)
+        return lo
 
 
 def box_selector(src, nb, tag):
@@ -97,6 +114,30 @@ def run_case(ctx):
                                 f"shapes got {[a.shape for a in got][:6]} want "
                                 f"{[common.expected_box(m, lv, b, fidx).shape for b in range(nb)][:6]}")
             keyparts.append(("iter", fdesc, lv))
+            # <= 4 per-file tasks: ALL feasible completion orders x W in {1,2,16} x {lazy, eager}
+            if 2 <= nfiles <= 4:
+                import math
+                seen = set()
+                for W, widx in ((1, 0), (2, 2), (16, 8)):
+                    for k in range(math.factorial(nfiles)):
+                        order = tuple(_feasible_order(nfiles, W, perm_from_index(nfiles, k)))
+                        for eager in (0, 1):
+                            if (min(W, nfiles), order, eager) in seen:
+                                continue
+                            seen.add((min(W, nfiles), order, eager))
+                            ctx.pool_src = SuffixScript({".W": widx, ".style": 4, ".eager": eager, ".perm": k})
+                            try:
+                                o = run_tool(ctx, it)
+                            finally:
+                                ctx.pool_src = None
+                            ctx.stats["enumerated_orders"] += 1
+                            if not o.ok or not o.value[1] or \
+                                    sorted(common.arr_digest(a) for a in o.value[0]) != want:
+                                raise Violation({**sig, "oracle": "iteration-under-enumerated-order"},
+                                                f"iterating {fdesc} at level {lv} with W={W}, completion order "
+                                                f"{list(order)}, {'eager' if eager else 'lazy'} delivery: "
+                                                f"{'raised ' + repr(o.exc) if not o.ok else 'wrong multiset / no stop'}")
+                ctx.probe("enumeration_complete")
         else:
             bsel, bidx, bdesc = box_selector(src, nb, f"s{s}.b")
             if isinstance(bsel, int):
@@ -127,3 +168,5 @@ def _fclass(fsel):
     if isinstance(fsel, list):
         return "names" if isinstance(fsel[0], str) else "ints"
     return "name" if isinstance(fsel, str) else "int"
+def evidence_extra(stats):
+    return {"enumerated_orders": stats.get("enumerated_orders", 0)}
